@@ -1,2 +1,3 @@
 import NetqasmVerif.Model.Basic
 import NetqasmVerif.Model.Codec
+import NetqasmVerif.Model.Sdk
